@@ -48,6 +48,23 @@ func (e *picEntry) expectExtent() [][2]float64 {
 	return [][2]float64{px}
 }
 
+// callerBuffer hands the library the picture in a buffer of the caller's in one case out of three; the returned function
+// is what the caller does next with that buffer: it reads the next file into it. The picture that was added is the one
+// the buffer held when the call was made.
+func callerBuffer(r *rng.R, res *core.Result, e *picEntry, data []byte) ([]byte, func()) {
+	if !r.Chance(1, 3) {
+		return data, func() {}
+	}
+	b := append([]byte(nil), data...)
+	e.via += "+caller-reuses-its-buffer"
+	res.Count("pictures_given_in_a_buffer_the_caller_reuses", 1)
+	return b, func() {
+		for i := range b {
+			b[i] = byte(i*7 + 3)
+		}
+	}
+}
+
 func hashBytes(b []byte) string { return fmt.Sprintf("%d:%016x", len(b), h64(string(b))) }
 
 // c10Check resolves every picture of the saved main part and compares with the ledger.
@@ -356,7 +373,9 @@ func c10Case(c *core.Ctx) *core.Result {
 			} else {
 				e.via = "AddImageFromData"
 				name := c10Names[r.Intn(len(c10Names))]
-				cg = core.Catch(func() { _, err = d.AddImageFromData(im.Data, name, imgFormat(im.Format), im.W, im.H, cfg) })
+				buf, reuse := callerBuffer(r, res, e, im.Data)
+				cg = core.Catch(func() { _, err = d.AddImageFromData(buf, name, imgFormat(im.Format), im.W, im.H, cfg) })
+				reuse()
 			}
 			log = append(log, fmt.Sprintf("%s#%d(%s,%s)", e.via, serial, im.Format, sizeClass(e)))
 			if cg != nil {
@@ -390,11 +409,13 @@ func c10Case(c *core.Ctx) *core.Result {
 			switch r.Intn(3) {
 			case 0:
 				e.via = "AddCellImage(data)"
-				cfg := &document.CellImageConfig{Data: im.Data, Width: w, Height: h, KeepAspectRatio: keep}
+				buf, reuse := callerBuffer(r, res, e, im.Data)
+				cfg := &document.CellImageConfig{Data: buf, Width: w, Height: h, KeepAspectRatio: keep}
 				if r.Bool() {
 					cfg.Format = imgFormat(im.Format)
 				}
 				cg = core.Catch(func() { _, err = d.AddCellImage(t, row, col, cfg) })
+				reuse()
 			case 1:
 				e.via = "AddCellImage(file)"
 				path := filepath.Join(c.WorkDir, fmt.Sprintf("c10-cell-%d.bin", serial))
@@ -406,7 +427,9 @@ func c10Case(c *core.Ctx) *core.Result {
 			case 2:
 				e.via = "AddCellImageFromData"
 				e.h, e.keep = 0, true
-				cg = core.Catch(func() { _, err = d.AddCellImageFromData(t, row, col, im.Data, w) })
+				buf, reuse := callerBuffer(r, res, e, im.Data)
+				cg = core.Catch(func() { _, err = d.AddCellImageFromData(t, row, col, buf, w) })
+				reuse()
 			}
 			log = append(log, fmt.Sprintf("%s#%d(%s,%s)@%s", e.via, serial, im.Format, sizeClass(e), e.where))
 			if cg != nil {
